@@ -87,7 +87,7 @@ PROPS = {
     },
     "C20": {
         "level": "proof",
-        "lean_targets": ["LP.Props.C20", "LP.Props.C20Heap", "LP.Props.C20HeapOrder", "LP.Props.C20HeapRemove", "LP.Props.C20HSet", "LP.Props.C20HSetProbe", "LP.Props.C20HSetRemove", "LP.Props.C20HSetRefine", "LP.Props.C20HSetIntersect"],
+        "lean_targets": ["LP.Props.C20", "LP.Props.C20Heap", "LP.Props.C20HeapOrder", "LP.Props.C20HeapRemove", "LP.Props.C20HeapRefine", "LP.Props.C20HSet", "LP.Props.C20HSetProbe", "LP.Props.C20HSetRemove", "LP.Props.C20HSetRefine", "LP.Props.C20HSetIntersect"],
         "harnesses": [{"name": "h_container", "quick": 20000, "thorough": 300000}],
         "select": lambda t: t[1] in ("hset", "heap", "pvec"),
         "nontrivial": lambda t, r: len(t) > 3 and t[3].count(",") >= 3,
